@@ -66,6 +66,8 @@ def extras(seed):
             pm.append(dict(mask=[STR[sname]] * nt, form="str", strs=[sname] * nt, src="pbatch_str"))
         pm.append(dict(mask=[[True, False, False]] * nt, form="default", src="pbatch_default"))
         tasks.append(dict(kind="gradbatch", lkind=lk, seed=seed, masks=pm, pbatch=True))
+        # ... and with an equation parameter OBSERVED with the observations (the observation term overrides it row by row)
+        tasks.append(dict(kind="gradbatch", lkind=lk, seed=seed, masks=[dict(m, src=m["src"].replace("pbatch", "obsk")) for m in pm], pbatch="obsk"))
     return tasks
 
 
